@@ -1,6 +1,6 @@
 #!/bin/sh
 # usage: tools/seedtest.sh <patch.diff> <ID> [tier]   - apply a seeded change to /repo, run the check, undo
-P="$1"; ID="$2"; TIER="${3:-quick}"
+P="$(realpath "$1")"; ID="$2"; TIER="${3:-quick}"
 cd /repo || exit 2
 git diff --quiet || { echo "/repo has local changes"; exit 2; }
 git apply "$P" || { echo "patch does not apply"; exit 2; }
